@@ -150,6 +150,8 @@ def check(rep, tier, seed):
     rep.assumptions += ["a Vec iterator yields exactly len() elements", "limits are >= 1", "the file lists are sorted by name = by age (timestamps in the names)"]
     rep.outside_claim += ["the file system itself, concurrent writers, files created by other programs in the same directories"]
     rep.trusted += ["mirsym", "z3"]
+    import batteries
+    batteries.confirm(rep, "C19")
 
 
 def _limit_from_pc(r):
